@@ -277,8 +277,8 @@ fn apply(d: &mut Vec<u8>, m: &Mut) {
     }
 }
 
-fn materialise(c: &Case) -> Vec<u8> {
-    let mut d = match &c.base {
+fn base_bytes(base: &Base) -> Vec<u8> {
+    match base {
         Base::Spec { spec, sut_enc } => {
             let by_sut = if *sut_enc { spec.to_sut().try_encode_to_vec().ok() } else { None };
             by_sut.unwrap_or_else(|| ref_encode(spec))
@@ -288,12 +288,19 @@ fn materialise(c: &Case) -> Vec<u8> {
             d.extend_from_slice(&sp::fill((*tail_len).min(MAX_DGRAM), *tail_seed));
             d
         }
-    };
-    for m in &c.muts {
+    }
+}
+
+fn mutate(mut d: Vec<u8>, muts: &[Mut]) -> Vec<u8> {
+    for m in muts {
         apply(&mut d, m);
     }
     d.truncate(MAX_DGRAM);
     d
+}
+
+fn materialise(c: &Case) -> Vec<u8> {
+    mutate(base_bytes(&c.base), &c.muts)
 }
 
 const UNRELATED_V4: [u8; 4] = [198, 51, 100, 7];
@@ -570,6 +577,26 @@ fn check_case(c: &Case, obs: &mut Obs) -> CheckResult {
     check_dgram(&d, peer, c.local, obs)
 }
 
+/// one encoded packet, several (mutation, peer relation) variants: amortises the cost of
+/// generating the packet spec
+#[derive(Clone, Debug, Serialize, Deserialize)]
+struct MultiCase {
+    base: Base,
+    variants: Vec<(Vec<Mut>, PeerRel)>,
+    local: Ip,
+}
+
+fn check_multi(c: &MultiCase, obs: &mut Obs) -> CheckResult {
+    let d0 = base_bytes(&c.base);
+    for (muts, rel) in &c.variants {
+        let d = mutate(d0.clone(), muts);
+        let peer = resolve_peer(&d, *rel);
+        check_dgram(&d, peer, c.local, obs)?;
+    }
+    obs.evals(c.variants.len() as u64);
+    Ok(())
+}
+
 // --------------------------------------------------------------------------------- exhaustive parts
 
 const LOCALS: [Ip; 2] = [Ip::V4([10, 0, 0, 1]), Ip::V6([0xfd, 0, 0, 0, 0, 0, 0, 0, 0, 0, 0, 0, 0, 0, 0, 1])];
@@ -798,9 +825,9 @@ fn mut_strategy() -> impl Strategy<Value = Vec<Mut>> {
     ]
 }
 
-fn mutation_case_strategy() -> impl Strategy<Value = Case> {
-    (sp::pkt_strategy(false, false), any::<bool>(), mut_strategy(), rel_strategy(), local_strategy())
-        .prop_map(|(spec, sut_enc, muts, peer, local)| Case { base: Base::Spec { spec: Box::new(spec), sut_enc }, muts, peer, local })
+fn mutation_case_strategy() -> impl Strategy<Value = MultiCase> {
+    (sp::pkt_strategy(false, false), any::<bool>(), prop::collection::vec((mut_strategy(), rel_strategy()), 4..=4), local_strategy())
+        .prop_map(|(spec, sut_enc, variants, local)| MultiCase { base: Base::Spec { spec: Box::new(spec), sut_enc }, variants, local })
 }
 
 /// quote budget boundary: datagrams whose length is around 1232 - reply header - 8 for both reply
@@ -892,7 +919,7 @@ fn run_trunc(ctx: &Ctx) {
 
 // (3) field-directed mutations of valid packets
 fn run_mutations(ctx: &Ctx) {
-    ctx.run_prop("mutations", ctx.tier.pick(400_000, 8_000_000), mutation_case_strategy, check_case);
+    ctx.run_prop("mutations", ctx.tier.pick(300_000, 6_000_000), mutation_case_strategy, check_multi);
 }
 // (4) datagram lengths around the quoting budget
 fn run_boundary(ctx: &Ctx) {
@@ -900,7 +927,7 @@ fn run_boundary(ctx: &Ctx) {
 }
 // (5) random datagrams up to the jumbo buffer size
 fn run_random(ctx: &Ctx) {
-    ctx.run_prop("random", ctx.tier.pick(200_000, 4_000_000), random_case_strategy, check_case);
+    ctx.run_prop("random", ctx.tier.pick(800_000, 16_000_000), random_case_strategy, check_case);
 }
 
 fn post(ctx: &Ctx) {
@@ -945,7 +972,7 @@ fn main() {
         Sub { name: "addr-type-grid", run: run_addr_grid, replay: |c, v| c.replay_case::<Case>("addr-type-grid", v, check_case) },
         Sub { name: "path-type-grid", run: run_path_grid, replay: |c, v| c.replay_case::<Case>("path-type-grid", v, check_case) },
         Sub { name: "truncations", run: run_trunc, replay: |c, v| c.replay_case::<TruncCase>("truncations", v, check_trunc) },
-        Sub { name: "mutations", run: run_mutations, replay: |c, v| c.replay_case::<Case>("mutations", v, check_case) },
+        Sub { name: "mutations", run: run_mutations, replay: |c, v| c.replay_case::<MultiCase>("mutations", v, check_multi) },
         Sub { name: "quote-boundary", run: run_boundary, replay: |c, v| c.replay_case::<Case>("quote-boundary", v, check_case) },
         Sub { name: "random", run: run_random, replay: |c, v| c.replay_case::<Case>("random", v, check_case) },
     ];
